@@ -7,7 +7,7 @@ from .. import batch, core, sast as A
 
 PROP = "C12"
 V, I, S = A.Var, A.Int, A.Str
-KEYS = ["a", "b", "A", "", "x y", "é", "a1", "k0"]
+KEYS = ["a", "b", "A", "", "x y", "é", "a1", "k0", 'q"t', "b\\s"]
 IDENT = {"a", "b", "A", "a1", "k0"}
 
 
